@@ -9,6 +9,7 @@ mod gen;
 mod lang;
 mod tree;
 mod numrun;
+mod oracle;
 mod rng;
 mod run;
 
@@ -66,6 +67,10 @@ fn main() {
                 let ans = std::panic::catch_unwind(|| run::run_line(&line)).unwrap_or_else(|_| "panic".to_string());
                 writeln!(w, "{}", ans).unwrap(); w.flush().unwrap();
             }
+        }
+        Some("oracle") => {
+            let stdin = std::io::stdin(); let out = std::io::stdout(); let mut w = std::io::BufWriter::new(out.lock());
+            for line in stdin.lock().lines() { writeln!(w, "{}", oracle::oracle_line(&line.unwrap())).unwrap(); }
         }
         _ => { eprintln!("usage: slacharness gen <stream> <n> <seed> | run"); std::process::exit(2); }
     }
